@@ -19,7 +19,7 @@ LEVEL_TEXT = (
     "combination of Ada(i), + and - over the integer fragment lowers and, once the arguments are applied, reduces to a "
     "constant asset list denoting exactly the lovelace amount integer arithmetic gives and nothing else "
     "(C01_lovelace_fragment); (4) the multi-asset fragment: the same with the constructors of assets the program "
-    "declares with constant policy and name, Tok(i): the reduced constant denotes, class by class, the amounts integer "
+    "declares with constant policy and name, Tok(i), and AnyAsset(0x<policy>, 0x<name>, i): the reduced constant denotes, class by class, the amounts integer "
     "arithmetic gives, for every nesting of + and - (C01_multi_asset_fragment); (5) the value of a template at the "
     "level of the IR: for every combination of constant asset lists, the fee placeholder, inputs used as values "
     "(IntoAssets(ExpectInput ..)), + and -, applying the fee and the input UTxOs and reducing yields a constant that "
@@ -40,7 +40,7 @@ LEVEL_TEXT = (
 )
 LEVEL_NOTE = (
     "Partial: the end-to-end equation (lower, apply, reduce = denotation) is proved for the integer, the lovelace and "
-    "the declared-asset fragments, and for amounts over those, fees and input names (C01_source_to_value); AnyAsset and property access are per case; records with spread, property access, inputs, selection and the Cardano compiler are compared "
+    "the declared-asset fragments, and for amounts over those, fees and input names (C01_source_to_value); AnyAsset with non-literal policy or name and property access are per case; records with spread, property access, inputs, selection and the Cardano compiler are compared "
     "with [[.]] per case (compile exactness on constant IR is C02's theorems). min_utxo, "
     "collateral, policies with scripts and chain-specific directives are not generated yet; names are unique, so "
     "shadowing between scopes is not exercised."
